@@ -125,6 +125,12 @@ def run_scenario(ctx, events, tids, counter, scn, files, roles):
         cfg.write_text(kconfig_text({r: tuple(v) for r, v in scn["kconfig"].items()}))
     soc, base, via = scn["soc"], scn["base"], scn["via"]
     err = None
+    doms = ("secure", "application", "radio")
+    if scn.get("stale"):
+        # history: the output directory still holds the three files of an earlier invocation; a file this invocation does not
+        # write is not ITS output (it keeps the marker), a file it writes replaces the old one
+        for dom in doms:
+            (outdir / f"suit_installed_envelopes_{dom}_merged.hex").write_bytes(STALE)
     if via == "lib":
         core.setup_repo_path()
         from suit_generator.cmd_image import ImageCreator
@@ -153,8 +159,10 @@ def run_scenario(ctx, events, tids, counter, scn, files, roles):
         p = subprocess.run(a, cwd=d, env=core.cli_env(), capture_output=True, text=True)
         err = p.stderr[-300:] if p.returncode else None
     inputs = [f.read_bytes() for f in files]
-    for dom in ("secure", "application", "radio"):
+    for dom in doms:
         path = outdir / f"suit_installed_envelopes_{dom}_merged.hex"
+        if path.exists() and path.read_bytes() == STALE:
+            path.unlink()
         mem = {}
         if path.exists():
             try:
@@ -187,6 +195,9 @@ def run_scenario(ctx, events, tids, counter, scn, files, roles):
         tids[tid] = (scn, dom, err)
         events.append({"tid": tid, "i": 0, "ev": "Begin", "soc": soc, "base": word(base), "domain": dom, "slots": slots})
         events.extend(hex_events(path, tid))
+
+
+STALE = b"left behind by an earlier invocation\n"
 
 
 def judge(ctx, events, tids, label):
@@ -296,6 +307,7 @@ def run(ctx: core.Check):
     ctx.note(f"Use B/C: {len(scns)} storage scenarios -> real image boot")
     drift = 0
     for k, s in enumerate(scns):
+        s["stale"] = k % 4 == 1
         files, roles = concretise(ctx, d, ctx.rng, keys, s, k)
         n0 = len(events)
         run_scenario(ctx, events, tids, counter, s, files, roles)
